@@ -9,6 +9,13 @@
 (*        "PT"; acc[j][k] likewise                                               *)
 (*  span: reaction sequences of 1-3 steps, each with or without a transition     *)
 (*        state, state energies 0..2; spans = the acceptable energy spans        *)
+(*        (contiguous chains: every step starts where the previous one ended)    *)
+(*  seq : sequences whose steps have INDEPENDENT reactant-state energies (a      *)
+(*        co-reactant joins / a by-product leaves between steps): every 1-2 step *)
+(*        sequence over energies 0..2 and every 3-step one over 0..1, each step  *)
+(*        with or without TS; states = States(steps) (every reactant state       *)
+(*        listed), spans, contig, lrx = a later reactant state is the strict     *)
+(*        extreme of the sequence                                                *)
 EXTENDS Extrema, TLC, Json, IOUtils, SequencesExt
 CVals == 0..2
 ILEq(a, b) == a <= b
@@ -40,6 +47,13 @@ Spans == UNION {
               : g \in [1..NStates(ts) -> CVals]}
            : ts \in TsPat}
 
+SRecs(V) == [r : V, t : {<<>>} \cup {<<v>> : v \in V}, p : V]
+SeqInputs == UNION {[1..n -> SRecs(0..2)] : n \in 1..2} \cup [1..3 -> SRecs(0..1)]
+SeqCases == {[steps |-> st, states |-> States(st),
+              spans |-> SetToSeq(SpanSet(States(st), ILEq, IPlus, IMinus, 0)),
+              contig |-> Contiguous(st), lrx |-> LaterReactantExtreme(st)] : st \in SeqInputs}
+
 ASSUME JsonSerialize(IOEnv.OUT_FILE,
-          [one |-> SetToSeq(One), two |-> SetToSeq(Two), span |-> SetToSeq(Spans)])
+          [one |-> SetToSeq(One), two |-> SetToSeq(Two), span |-> SetToSeq(Spans),
+           seq |-> SetToSeq(SeqCases)])
 =============================================================================
